@@ -21,6 +21,7 @@
 From Coq Require Import List ZArith NArith Permutation.
 From Astisub Require Import Kit.Base Kit.Str Kit.Scan Model.Dur Model.Vtt Proofs.VttIOProofs Proofs.VttBase Proofs.VttLine Proofs.VttSimple Proofs.VttDoc Proofs.EolProofs.
 From Astisub Require Import Proofs.VttReadTime Proofs.VttReadLine Proofs.VttReadDoc Proofs.VttReadDec Proofs.VttNeeds Proofs.VttDomain Proofs.VttWriteRender.
+From Astisub Require Import Kit.Chk Model.VttC Proofs.VttChk.
 From Coq Require Strings.String.
 Import Strings.String.StringSyntax.
 Delimit Scope string_scope with string.
@@ -315,3 +316,22 @@ Example C02_write_rendering_empty_region_id :
   [b "WEBVTT"; []; b "Region: id="; []; b "1"; b "00:00:00.000 --> 00:00:01.000 region:"; b "second"] /\
   rendering_okb (w_hrend noid_doc [] [[]]) (w_gdoc noid_doc [] [[]]) (w_cues noid_doc) [] = true.
 Proof. exact (conj noid_doc_repr write_rendering_empty_region_id). Qed.
+
+(* ---- the model the harness runs has explicit panic sites (C08) ----
+   Model/VttC.v transcribes webvtt.go with every index expression, slice expression and pointer dereference as a
+   checked access that yields Panic <line of webvtt.go> when out of range / nil, behind the guard the Go code tests (the
+   table of sites is in notes/C02.md).  It is the function the extracted driver runs against the library; the theorems of
+   this file are stated on the pattern-matching transcription, which computes the same function: *)
+Theorem C02_checked_reader_agrees : forall ls e, read_vtt_lines_c ls e = read_vtt_lines ls e.
+Proof. exact read_vtt_lines_c_ok. Qed.
+Print Assumptions C02_checked_reader_agrees.
+Theorem C02_checked_writer_agrees : forall d so ro, write_vtt_c d so ro = write_vtt d so ro.
+Proof. exact write_vtt_c_ok. Qed.
+Print Assumptions C02_checked_writer_agrees.
+(* no panic site of webvtt.go is reachable (the content: each guard implies its access is in range / non-nil) *)
+Theorem C02_checked_reader_total : forall ls e p, read_vtt_lines_c ls e <> Panic p.
+Proof. exact read_vtt_lines_c_no_panic. Qed.
+Print Assumptions C02_checked_reader_total.
+Theorem C02_checked_writer_total : forall d so ro p, write_vtt_c d so ro <> Panic p.
+Proof. exact write_vtt_c_no_panic. Qed.
+Print Assumptions C02_checked_writer_total.
